@@ -336,18 +336,19 @@ yep:
 }
 
 DEFUN size_t
-__ordtostr(char *buf, size_t bsz)
+__ordtostr(char *buf, size_t bsz, size_t ndigits)
 {
 	char *p = buf;
 
 	if (UNLIKELY(bsz < 2)) {
 		return 0;
 	}
-	/* assumes the actual number is printed in BUF already, 2 digits long */
+	/* assumes the actual number is printed in BUF already,
+	 * NDIGITS (2 or more) digits long */
 	if (UNLIKELY(p[-2] == '1')) {
 		/* must be 11, 12, or 13 then */
 		goto teens;
-	} else if (p[-2] == '0') {
+	} else if (p[-2] == '0' && ndigits <= 2U) {
 		/* discard */
 		p[-2] = p[-1];
 		p--;
